@@ -35,6 +35,21 @@ def apply_edits(edits):
     return overlay
 
 
+_BASE = {}
+
+
+def baseline_keys(prop):
+    if prop not in _BASE:
+        try:
+            mod = importlib.import_module('sa.rules.' + prop.lower())
+            run = Run(prop, Tree())
+            mod.check(run)
+            _BASE[prop] = {f.key for f in run.findings}
+        except Exception:
+            _BASE[prop] = set()
+    return _BASE[prop]
+
+
 def eval_variant(prop, variant):
     name, kind, edits = variant['name'], variant['kind'], variant['edits']
     overlay = apply_edits(edits)
@@ -45,7 +60,8 @@ def eval_variant(prop, variant):
         run = Run(prop, Tree(overlay=overlay))
         mod.check(run)
         known = {k['key'] for k in load_known() if k.get('property') == prop and k.get('status') == 'known'}
-        new = [f for f in run.findings if f.key not in known]
+        base = baseline_keys(prop)
+        new = [f for f in run.findings if f.key not in known and f.key not in base]
         return {'name': name, 'kind': kind, 'result': 'fired' if new else 'silent',
                 'findings': [f.key for f in new][:6]}
     except AnalysisError as e:
